@@ -225,6 +225,24 @@ type slot struct {
 	t *Task
 }
 
+// AppendNR appends without calling into the (race-instrumented) runtime
+// growslice / memmove helpers; bookkeeping shared between tasks uses it so that
+// the race detector only ever sees the accesses of the code under test.
+//
+//go:norace
+func AppendNR[T any](s []T, v T) []T {
+	if len(s) == cap(s) {
+		n := make([]T, len(s), 2*cap(s)+16)
+		for i := range s {
+			n[i] = s[i]
+		}
+		s = n
+	}
+	s = s[:len(s)+1]
+	s[len(s)-1] = v
+	return s
+}
+
 // cur is the active simulation; nil means pass-through (shims behave like the
 // primitives they wrap).
 var cur *Sim
@@ -254,7 +272,7 @@ func New(cfg Config, ch *Chooser) *Sim {
 	if cfg.DrainSteps == 0 {
 		cfg.DrainSteps = 2000
 	}
-	return &Sim{Cfg: cfg, Ch: ch, objIDs: make(map[uintptr]int)}
+	return &Sim{Cfg: cfg, Ch: ch, objIDs: make(map[uintptr]int), tasks: make([]*Task, 0, 64), Panics: make([]*Task, 0, 4)}
 }
 
 // Step returns the number of scheduler steps taken so far; it is the global
@@ -373,7 +391,7 @@ func SelfID() int {
 func (s *Sim) newTask(name string, parent int, lib bool, site string) *Task {
 	t := &Task{ID: len(s.tasks), Name: name, Parent: parent, Lib: lib, Site: site, resume: make(chan struct{})}
 	t.state = stRunning
-	s.tasks = append(s.tasks, t)
+	s.tasks = AppendNR(s.tasks, t)
 	s.Stats.Tasks++
 	if lib {
 		s.Stats.LibTasks++
@@ -413,16 +431,7 @@ func (s *Sim) spawn(name string, lib bool, site string, fn func()) *Task {
 func (s *Sim) runTask(t *Task, fn func(), ready chan struct{}) {
 	t.g = getg()
 	s.register(t)
-	defer func() {
-		if r := recover(); r != nil {
-			t.PanicVal = r
-			t.PanicStack = string(debug.Stack())
-			s.Panics = append(s.Panics, t)
-		}
-		s.unregister(t)
-		s.live--
-		t.state = stDone
-	}()
+	defer s.taskExit(t)
 	t.reqKind = OpStart
 	t.reqObj = 0
 	t.state = stParked
@@ -435,6 +444,20 @@ func (s *Sim) runTask(t *Task, fn func(), ready chan struct{}) {
 		runtime.Goexit()
 	}
 	fn()
+}
+
+// taskExit is the deferred epilogue of every task.
+//
+//go:norace
+func (s *Sim) taskExit(t *Task) {
+	if r := recover(); r != nil {
+		t.PanicVal = r
+		t.PanicStack = string(debug.Stack())
+		s.Panics = AppendNR(s.Panics, t)
+	}
+	s.unregister(t)
+	s.live--
+	t.state = stDone
 }
 
 // Go is what a rewritten `go f()` statement calls.
@@ -500,7 +523,7 @@ func (s *Sim) adopt(g uintptr) *Task {
 	raceDisable()
 	s.mu.Lock()
 	t := &Task{ID: len(s.tasks), Name: "adopted", Parent: -1, Lib: true, resume: make(chan struct{}), g: g, state: stRunning}
-	s.tasks = append(s.tasks, t)
+	s.tasks = AppendNR(s.tasks, t)
 	s.Stats.Adopted++
 	s.mu.Unlock()
 	raceEnable()
@@ -745,6 +768,16 @@ func Gosched() {
 		return
 	}
 	s.park(OpGosched, 0, nil, nil, nil, nil, nil)
+}
+
+// NoteMapRange counts a rewritten map range.
+//
+//go:norace
+func (s *Sim) NoteMapRange(permuted bool) {
+	s.Stats.MapRanges++
+	if permuted {
+		s.Stats.MapPermuted++
+	}
 }
 
 // VirtualCPUs is what simruntime.GOMAXPROCS reports during a run.
